@@ -920,6 +920,7 @@ int simkitMain(int argc, char** argv)
       {
         RunResult r2 = w->runPlan(p);
         printf("H %ld %016lx %016lx\n", run, (unsigned long)r.loghash, (unsigned long)r2.loghash);
+        for (auto& v : r.viol) printf("HV %ld %s :: %.300s\n", run, v.sig.c_str(), v.detail.c_str());
         if (r2.loghash != r.loghash) { nondet++; printf("NONDET run=%ld\n", run); writeFile(outdir + "/nondet_" + std::to_string(run) + ".plan", p.toText()); }
         continue;
       }
